@@ -165,6 +165,81 @@ def explore_world(arg):
     return stats, bad, arg
 
 
+def deep_world(arg):
+    """Longer histories with a reduced amount alphabet and *delayed* confirmations: operations are spend(amount, fee 0)
+    for a few characteristic amounts and confirm(j) = mine the j-th still unconfirmed earlier spend into a block."""
+    dist, order, korder, depth = arg
+    from skepticoin.coinstate import CoinState
+    ledger.setup()
+    seams.deterministic_wallet_signing()
+    root, n1 = make_world(dist, False, False, order)
+    cs0 = CoinState.empty().add_block_no_validation(root.block).add_block(n1.block, n1.ts)
+    keys = [K[0], K[1]] if korder == 0 else [K[1], K[0]]
+    start = (n1, cs0, frozenset(), frozenset(), (), ())       # node, coinstate, record, used, pending txs, trace
+    seen = {(n1.bid, frozenset(), frozenset(), ())}
+    frontier = [start]
+    stats = {'states': 1, 'transitions': 0, 'success': 0, 'insufficient': 0, 'confirmed': 0}
+    bad = []
+    for d in range(depth):
+        nxt = []
+        for node, cs, rec, used, pending, trace in frontier:
+            wouts = wallet_outputs(node)
+            vals = sorted(set(wouts.values()))
+            avail = sum(v for r, v in wouts.items() if r not in used)
+            amts = sorted({a for a in (vals[:1] + vals[-1:] + [avail, max(1, avail - 1)]) if a >= 1})
+            ops = [('spend', a, 0) for a in amts] + [('confirm', j) for j in range(min(2, len(pending)))]
+            for op in ops:
+                stats['transitions'] += 1
+                tr = trace + (op,)
+                if op[0] == 'spend':
+                    viol, tx, after = check_attempt(cs, node, keys, rec, used, op[1], op[2])
+                    for key, what in viol:
+                        if len(bad) < 8:
+                            bad.append((key, what, tr))
+                    if tx is None:
+                        stats['insufficient'] += 1
+                        s2 = (node, cs, frozenset(after), used, pending, tr)
+                    else:
+                        stats['success'] += 1
+                        ins = frozenset((i.output_reference.hash, i.output_reference.index) for i in tx.inputs)
+                        s2 = (node, cs, frozenset(after), used | ins, pending + (tx,), tr)
+                    if viol:
+                        continue
+                else:
+                    tx = pending[op[1]]
+                    try:
+                        b = world.assemble(node, [tx], K[5], node.ts + 120)
+                        n2 = world.Node(b, node, path=node.path + ('c',))
+                        cs2 = cs.add_block(b, n2.ts)
+                    except Exception:
+                        continue          # (conflicts with an already confirmed spend: cannot be mined)
+                    stats['confirmed'] += 1
+                    s2 = (n2, cs2, rec, used, pending[:op[1]] + pending[op[1] + 1:], tr)
+                k = (s2[0].bid, s2[2], s2[3], tuple(enc.txid(t) for t in s2[4]))
+                if k not in seen:
+                    seen.add(k)
+                    stats['states'] += 1
+                    nxt.append(s2)
+        frontier = nxt
+    return stats, bad, ('deep',) + tuple(arg)
+
+
+def deep_worlds(ctx):
+    dists = [((1,), (2, 5)), ((5,), (1, 2)), ((1, 2), (5,)), ((2, 5), (1,)), ((2,), (1,)), ((1,), (1, 1))]
+    if not ctx.quick:
+        dists += [((1, 2), (2, 5)), ((5, 5), (1,)), ((1,), (2,)), ((1, 1), (1, 1))]
+    out = []
+    for dist in dists:
+        for order in ('asc', 'desc'):
+            for korder in (0, 1):
+                out.append((dist, order, korder, 5 if ctx.quick else 6))
+    return out
+
+
+def _any(arg):
+    return deep_world(arg[1]) if arg[0] == 'deep' else explore_world(arg[1])
+
+
 def worlds(ctx):
     out = []
     maxtotal = 3 if ctx.quick else 4
@@ -187,12 +262,17 @@ def run(ctx):
     if ctx.seed:
         import random
         random.Random(ctx.seed).shuffle(ws)
-    res = ctx.pmap(explore_world, ws, chunksize=4)
+    dws = deep_worlds(ctx)
+    res = ctx.pmap(_any, [('deep', w) for w in dws] + [('flat', w) for w in ws])
     tot = {}
     for st, bad, arg in res:
         for k, v in st.items():
             tot[k] = tot.get(k, 0) + v
         for key, what, tr in bad:
+            if arg[0] == 'deep':
+                ctx.violation(key, "%s; world %s (longer history, delayed confirmations), operations %s" % (what, arg[1:4], list(tr)),
+                              {'deep': [[list(arg[1][0]), list(arg[1][1])], arg[2], arg[3], arg[4]], 'trace': [list(t) for t in tr]})
+                continue
             ctx.violation(key, "%s; world %s, attempts %s" % (what, arg[:5], list(tr)),
                           {'world': [list(arg[0][0]), list(arg[0][1])] + list(arg[1:]), 'trace': [list(t) for t in tr]})
     ctx.cov.update({
@@ -203,11 +283,17 @@ def run(ctx):
         'rule': "worlds = every assignment of <= %d outputs of value 1/2/5 to two wallet keys x foreign output x 10-coin reward "
                 "x output order x key-dictionary order; per world BFS over (head, record of used outputs, outputs used by "
                 "successful spends) with every (amount 1..total+1, fee 0..2) at every state, attempts per path <= %d, "
-                "confirmations <= %d" % (3 if ctx.quick else 4, ws[0][5], ws[0][6]),
+                "confirmations <= %d; plus %d worlds explored to %d operations with a reduced amount alphabet (smallest / largest "
+                "output, everything available, one less) and confirmation of ANY still unconfirmed earlier spend as a separate "
+                "operation" % (3 if ctx.quick else 4, ws[0][5], ws[0][6], len(dws), dws[0][3]),
     })
 
 
 def replay(data, ctx):
+    if 'deep' in data:
+        d = data['deep']
+        st, bad, _ = deep_world(((tuple(d[0][0]), tuple(d[0][1])), d[1], d[2], d[3]))
+        return [(k, what) for k, what, tr in bad]
     w = data['world']
     arg = ((tuple(w[0]), tuple(w[1])), w[2], w[3], w[4], w[5], w[6], w[7])
     st, bad, _ = explore_world(arg)
